@@ -44,11 +44,12 @@ UNITS = {
         ]),
     'V-opt': dict(
         tmpl='opt.rs.tmpl', props=['C22'],
-        functions=['Opt::collect_pos', 'Opt::collect_neg'],
+        functions=['Opt::collect_pos', 'Opt::collect_neg', 'Opt::map'],
         assumptions=[
             'Verus/Z3 trusted; vstd specs of Vec::{new,push,is_empty} and of iterating a Vec by value',
             'V-opt: listed rewrite of the signature — the parameter type `impl Iterator<Item = Opt<T>>` is replaced by `Vec<Opt<T>>` (Verus has no loop specification for an arbitrary iterator); the body is /repo\'s text; that the iterators the callers pass yield a finite sequence of items is not checked here',
             'V-opt: listed rewrite — `pub(crate) enum Opt` is declared `pub enum Opt` (Verus rejects its generated variant accessors on a crate-visible enum); visibility only',
+            'V-opt: Opt::map is verified against the closure\'s own specification (f.requires / f.ensures): requires the payload to be in f\'s domain; what the closures passed by the callers compute is outside this unit',
             'V-opt: listed rewrite — the for loop\'s iterator is named (`for p in it: iter`) and one proof line about Seq::take is inserted in front of the `match` (ghost code only)',
         ]),
     'V-cssbuf': dict(
